@@ -28,6 +28,7 @@ class GenFn:
         self.calls = []          # list of (callee_key, repo_line)
         self.has_self = False
         self.binders = {}
+        self.shape = None
 
 
 # ----------------------------------------------------------------------------
@@ -560,6 +561,125 @@ def stmt_bounds(st, i, j, lo, hi):
     return a, b
 
 
+driver_fn_shape = None   # set by driver (avoids a circular import)
+KNOWN_FN_NAMES = set()   # names of every function under contract and of every `fn` of the prelude (filled by driver.assemble)
+
+
+def rw_inline_helpers(text, src, log, depth=0):
+    """R18: `helper(a, b)?` / `helper(a, b)` where `helper` is a free function defined in the same source file, neither under contract nor
+    modelled by a stand-in, is replaced by a block `{ let (p1, p2): (T1, T2) = (a, b); BODY }`.  Only the simple shapes are handled:
+    no generics, no `self`, no `return Ok`/bare `return`; a body using `?` or `return Err(..)` requires the call to be followed by `?`
+    and the helper to return the same `Result<..>` alias as the caller (then `BODY` ends in `Ok(v)` and the block's value is `v`).
+    Anything else is left alone (the unknown callee then makes the function leave the subset: undecided)."""
+    if depth > 2:
+        return text
+    st = rtok.sig(rtok.lex(text))
+    try:
+        body_open = next(i for i, t in enumerate(st) if t[1] == '{')
+    except StopIteration:
+        return text
+    own = st[1][1] if st[0][1] == 'fn' else None
+    for i in range(body_open + 1, len(st) - 1):
+        t = st[i]
+        if t[0] != 'ident' or st[i + 1][1] != '(' or st[i - 1][1] in ('.', '::', 'fn', '!'):
+            continue
+        name = t[1]
+        if name in KNOWN_FN_NAMES or name == own or not re.match(r'^[a-z_][a-z0-9_]*$', name):
+            continue
+        try:
+            h = extract.find_fn(src, None, name)
+        except (extract.AnchorLost, rtok.LexError):
+            continue
+        hst = rtok.sig(rtok.lex(h['text']))
+        fn_i = next(k for k, x in enumerate(hst) if x[1] == 'fn')
+        if hst[fn_i + 2][1] != '(':
+            continue        # generics
+        po = fn_i + 2
+        pc = rtok.match_close(hst, po)
+        hb_open = next(k for k in range(pc, len(hst)) if hst[k][1] == '{')
+        hb_close = rtok.match_close(hst, hb_open)
+        ret = h['text'][hst[pc + 2][2]:hst[hb_open - 1][3]].strip() if hst[pc + 1][1] == '->' else ''
+        if 'where' in [x[1] for x in hst[pc:hb_open]] or 'impl' in ret:
+            continue
+        # parameters
+        params = []
+        okp = True
+        d = 0
+        a = po + 1
+        for k in range(po + 1, pc + 1):
+            u = hst[k][1]
+            if k == pc or (u == ',' and d == 0):
+                seg = hst[a:k]
+                if seg:
+                    words = [x[1] for x in seg]
+                    if 'self' in words or ':' not in words:
+                        okp = False
+                        break
+                    c = words.index(':')
+                    pat = h['text'][seg[0][2]:seg[c - 1][3]]
+                    ty = h['text'][seg[c + 1][2]:seg[-1][3]]
+                    if not re.match(r'^(mut\s+)?[a-z_]\w*$', pat) or "'" in ty:
+                        okp = False
+                        break
+                    params.append((pat, ty))
+                a = k + 1
+            elif u in ('(', '[', '{', '<'):
+                d += 1
+            elif u in (')', ']', '}', '>'):
+                d -= 1
+        if not okp:
+            continue
+        body = h['text'][hst[hb_open][3]:hst[hb_close][2]]
+        bwords = [x[1] for x in hst[hb_open + 1:hb_close]]
+        has_q = '?' in bwords
+        rets = [k for k in range(hb_open + 1, hb_close) if hst[k][1] == 'return']
+        if any(not (hst[k + 1][1] == 'Err' and hst[k + 2][1] == '(') for k in rets):
+            continue        # `return Ok(..)` / bare `return`: not inlinable as a block
+        cc = rtok.match_close(st, i + 1)
+        followed_q = st[cc + 1][1] == '?'
+        is_result = bool(re.match(r'^(\w+::)*Result\s*<', ret))
+        if (has_q or rets) and not (followed_q and is_result):
+            continue
+        args = text[st[i + 2][2]:st[cc - 1][3]] if cc > i + 2 else ''
+        if len(params) == 0:
+            bind = ''
+        elif len(params) == 1:
+            bind = 'let %s: %s = %s; ' % (params[0][0], params[0][1], args.strip().rstrip(','))
+        else:
+            bind = 'let (%s): (%s) = (%s); ' % (', '.join(p for p, _ in params), ', '.join(ty for _, ty in params), args.strip().rstrip(','))
+        if followed_q and is_result:
+            # the body must end in `Ok(v)`: the block's value is `v`
+            bst = hst[hb_open + 1:hb_close]
+            if len(bst) < 4 or bst[-1][1] != ')':
+                continue
+            # find the `Ok` that opens the tail expression
+            k = len(bst) - 1
+            dd = 0
+            while k >= 0:
+                if bst[k][1] in (')', ']', '}'):
+                    dd += 1
+                elif bst[k][1] in ('(', '[', '{'):
+                    dd -= 1
+                    if dd == 0:
+                        break
+                k -= 1
+            if k < 1 or bst[k - 1][1] != 'Ok' or (k >= 2 and bst[k - 2][1] not in (';', '}', '{')):
+                continue
+            stmts = h['text'][hst[hb_open][3]:bst[k - 1][2]]
+            val = h['text'][bst[k][3]:bst[-1][2]]
+            repl = '{ ' + bind + stmts + ' ' + (val if val.strip() else '()') + ' }'
+            end = st[cc + 1][3]
+        else:
+            repl = '{ ' + bind + body + ' }'
+            end = st[cc][3]
+        # keep the line count of the caller: the inlined text goes on one line
+        repl = ' '.join(l.split('//')[0].strip() if '//' in l and '"' not in l else l.strip() for l in repl.split('\n'))
+        new = text[:t[2]] + repl + text[end:]
+        log.append('R18 call of private helper `%s` (no contract, same file) inlined as a block' % name)
+        return rw_inline_helpers(new, src, log, depth + 1)
+    return text
+
+
 LOCKED_BINDERS = {}   # fid -> {'params': [...], 'lets': [...]}, filled by driver.assemble from obligations.lock
 
 
@@ -690,9 +810,16 @@ def build_fn(fs, repo, effectful, table_keys, canary=False):
     else:
         it = extract.find_fn(src, fs.scope, fs.name if not fs.rename else fs.fid.split('::')[-1])
         text = it['text']
+        g.shape = driver_fn_shape(text)
+        if getattr(fs, 'renamed_note', None):
+            log.append(fs.renamed_note)
         g.src_start, g.src_end = it['start_line'], it['end_line']
         g.src_hash = hashlib.sha256(text.encode()).hexdigest()[:16]
         sliced = False
+
+    # ---- R18: calls of private helpers of the same file that have no contract and no stand-in are inlined (before every other rewrite)
+    if not fs.external:
+        text = rw_inline_helpers(text, src, log)
 
     # ---- pre-pass rewrites
     for kind, arg, origin in fs.rewrites:
